@@ -728,4 +728,65 @@ pub fn run(ctx: &mut Ctx) {
         &|| (0u8..N_BASES as u8, proptest::collection::vec(mutation(), 1..4)).prop_map(|(base, muts)| EnvMut { base, muts }).boxed(),
         &check_envmut,
     );
+    ctx.fuzz(&crate::fuzzapi::ENVELOPE, 30_000, 600_000, crate::fuzzapi::ENVELOPE_RUNS_PER_JOB, crate::fuzzapi::FUZZ_JOBS);
+}
+
+// ---------------------------------------------------------------------------------------------
+// byte-level entry for the fuzz target `envelope`: the mutation oracle of `judge_mutated`, stated
+// relative to the whole set of genuinely signed envelopes (the fuzzer splices seeds, so "the"
+// original of an input is not known): whatever is accepted must be one of the genuine records,
+// through the reader of its own format only.
+
+/// Ok(non-trivial): the bytes decoded as an envelope that is not byte-identical to a genuine one.
+pub fn fuzz_entry(bytes: &[u8]) -> Result<bool, (String, serde_json::Value)> {
+    let fail = |sig: &str, d: serde_json::Value| Err((sig.to_string(), d));
+    let genuine_bytes = bases().iter().any(|b| b.enc == bytes);
+    let env = match catch(|| SignedEnvelope::from_protobuf_encoding(bytes)) {
+        Err(p) => return fail("C21:panic-decoding-envelope", json!({"panic": p, "bytes": hex(bytes)})),
+        Ok(Err(_)) => {
+            if genuine_bytes {
+                return fail("C21:own-envelope-rejected", json!({"bytes": hex(bytes)}));
+            }
+            return Ok(false);
+        }
+        Ok(Ok(e)) => e,
+    };
+    for read_interop in [false, true] {
+        let r = catch(|| if read_interop { PeerRecord::from_signed_envelope_interop(env.clone()) } else { PeerRecord::from_signed_envelope(env.clone()) });
+        let r = match r {
+            Err(p) => return fail("C21:panic-in-from-signed-envelope", json!({"panic": p, "bytes": hex(bytes)})),
+            Ok(r) => r,
+        };
+        match r {
+            Err(_) => {
+                if bases().iter().any(|b| b.enc == bytes && b.interop == read_interop) {
+                    return fail("C21:genuine-peer-record-rejected", json!({"bytes": hex(bytes)}));
+                }
+            }
+            Ok(rec) => {
+                let same = bases().iter().any(|b| b.interop == read_interop && rec.peer_id() == b.peer && rec.seq() == b.seq && rec.addresses() == &b.addrs[..]);
+                if !same {
+                    return fail(
+                        "C21:mutated-envelope-accepted-as-different-record",
+                        json!({"mutated": hex(bytes), "peer": rec.peer_id().to_string(), "seq": rec.seq(), "addrs": rec.addresses().iter().map(|a| a.to_string()).collect::<Vec<_>>(), "read_interop": read_interop}),
+                    );
+                }
+            }
+        }
+    }
+    for f in [Fmt::Legacy, Fmt::Interop] {
+        if let Ok((p, k)) = env.payload_and_signing_key(domain_of(f).to_string(), type_of(f)) {
+            let kpb = k.encode_protobuf();
+            let interop = matches!(f, Fmt::Interop);
+            if !bases().iter().any(|b| b.interop == interop && p == &b.fields[2][..] && kpb == b.fields[0]) {
+                return fail("C21:mutated-envelope-accepted-with-different-payload-or-key", json!({"mutated": hex(bytes)}));
+            }
+        }
+    }
+    Ok(!genuine_bytes)
+}
+
+/// golden seeds: the genuinely signed envelopes (every pool key × legacy / interop format)
+pub fn fuzz_seed_inputs() -> Vec<(String, Vec<u8>)> {
+    bases().iter().enumerate().map(|(i, b)| (format!("{}-{}-{i}", b.key_label.trim_start_matches("key:"), if b.interop { "interop" } else { "legacy" }), b.enc.clone())).collect()
 }
